@@ -276,7 +276,7 @@ def run(prog, rep, tier):
         if any(bk == f.key for f in fs_read):
             continue   # the repair reader stops there on purpose (C04)
         rep.fn(b)
-        base = '%s|%s' % (b.nkey, blk.term.cmethod)
+        base = '%s|%s' % (b.nkey, blk.term.cmethod or 'fn-pointer-call')
         key = 'R03.5|%s#%d|wrong-tag-propagated' % (base, cnt[base])
         cnt[base] += 1
         okb = badk.get((bk, bi))
